@@ -93,6 +93,7 @@ WF(G) == /\ G.msgs \cap G.enums = {} /\ Types(G) \cap G.deps = {} /\ RpcNames(G)
                               /\ (r.kind = "lro" => r.out = OpT /\ r.resp \in G.msgs /\ r.meta \in G.msgs)
                               /\ (r.opsvc # "" => PollOf(G, r.opsvc) # {})
          /\ \A r1, r2 \in G.rpcs : RpcName(r1) = RpcName(r2) => r1 = r2
+         /\ {G.order[i] : i \in 1..Len(G.order)} = Svcs(G) /\ Len(G.order) = Cardinality(Svcs(G))
 
 -----------------------------------------------------------------------------
 (* The input space: a parametric family of graphs.  Every slot is one      *)
@@ -126,27 +127,33 @@ StdGraph(s) ==
    fields |-> CommonFields(s) \cup {Fld("Meta", "Kind2", "one")},
    res    |-> CommonRes,
    refs   |-> RefOf(s),
+   order  |-> <<"S1", "S2">>,
    rpcs   |-> {R("S1", "GetA", "ReqA", "A", "unary", "", "", ""),
                R("S1", "RunLro", "ReqO", OpT, "lro", s.lro, "Meta", ""),
                R("S1", "ListB", "ReqL", "RespL", "paged", "", "", ""),
                R("S2", "Other", "ReqA", "B", "unary", "", "", ""),
                R("S2", "DropRes", "Res", Empty, "void", "", "", "")}]
 
-\* extended operations: S2.Insert returns the package's own Operation message and names the polling service Ops
-ExtGraph(s) ==
+\* extended operations: S2.Insert returns the package's own Operation message and names the polling service Ops, which has
+\* the polling method Get and one more, ordinary RPC (Delete).  `order` is the declaration order of the services in the
+\* proto file (the operation service before or after the service that starts the operation).
+ExtGraph(s, ord) ==
   [family |-> "ext",
-   msgs   |-> CommonMsgs \cup {"InsReq", "GetOpReq", "Operation"},
+   msgs   |-> CommonMsgs \cup {"InsReq", "GetOpReq", "DelOpReq", "Operation"},
    enums  |-> CommonEnums \cup {"Operation.Status"},
    parent |-> CommonParent \cup {Par("Operation.Status", "Operation")},
    deps   |-> {Empty, DepT},
    fields |-> CommonFields(s) \cup {Fld("InsReq", "Res", "one"), Fld("Operation", "Operation.Status", "one")},
    res    |-> CommonRes,
    refs   |-> RefOf(s),
+   order  |-> ord,
    rpcs   |-> {R("S1", "GetA", "ReqA", "A", "unary", "", "", ""),
                R("S1", "ListB", "ReqL", "RespL", "paged", "", "", ""),
                R("S2", "Other", "ReqA", "B", "unary", "", "", ""),
                R("S2", "Insert", "InsReq", "Operation", "extop", "", "", "Ops"),
-               R("Ops", "Get", "GetOpReq", "Operation", "poll", "", "", "")}]
+               R("Ops", "Get", "GetOpReq", "Operation", "poll", "", "", ""),
+               R("Ops", "Delete", "DelOpReq", Empty, "void", "", "", "")}]
+ExtOrders == {<<"S1", "S2", "Ops">>, <<"Ops", "S1", "S2">>}
 
 A1 == {"none", "B", "Outer", "Outer.Inner", "A"}          \* plain sharing / whole nest / nested message only (F5) / self recursion
 A2 == {"none", "Kind", "Outer.Kind"}                      \* top-level enum / nested enum only (F5)
@@ -162,7 +169,7 @@ SlotSpace ==
     [] Scope = "full"  -> Slots({"B", "Outer", "Outer.Inner", "A"}, {"Kind", "Outer.Kind"}, {"C", "Outer.Inner.Deep"}, {"B", DepT}, {"ResChild", "Ghost"},
                                 {"Outer.Inner", "Meta"}, {"C", "Kind2"})
     [] Scope = "all"   -> Slots(A1, A2, BB, CC, RF, LR, RS)
-    [] Scope = "ext"   -> Slots({"none", "B"}, {"Kind"}, {"C"}, {"none"}, {"none", "Res"}, {"B"}, {"Kind2"})
+    [] Scope = "ext"   -> Slots({"none", "B"}, {"Kind"}, {"C"}, {"none"}, {"Res"}, {"B"}, {"Kind2"})
     [] Scope = "tiny"  -> Slots({"B", "Outer.Inner"}, {"Kind"}, {"C"}, {"B"}, {"Res"}, {"Outer.Inner"}, {"Kind2"})
     [] OTHER           -> Slots({"B"}, {"Kind"}, {"C"}, {"none"}, {"Res"}, {"B"}, {"none"})
 \* Scope = "pick": the graphs of the whole product ("all") whose index is in Pick (the harness draws the indices from --seed)
@@ -177,7 +184,7 @@ FullSize == 5 * 3 * 4 * 3 * 4 * 3 * 3
 PickSlots(i) == [a1 |-> A1s[(i % 5) + 1], a2 |-> A2s[((i \div 5) % 3) + 1], b |-> BBs[((i \div 15) % 4) + 1],
                  c |-> CCs[((i \div 60) % 3) + 1], ref |-> RFs[((i \div 180) % 4) + 1], lro |-> LRs[((i \div 720) % 3) + 1],
                  res |-> RSs[((i \div 2160) % 3) + 1]]
-Graphs == CASE Scope = "ext"  -> {ExtGraph(s) : s \in SlotSpace}
+Graphs == CASE Scope = "ext"  -> {ExtGraph(s, o) : s \in SlotSpace, o \in ExtOrders}
             [] Scope = "pick" -> {StdGraph(PickSlots(i % FullSize)) : i \in Pick}
             [] OTHER          -> {StdGraph(s) : s \in SlotSpace}
 
